@@ -15,8 +15,11 @@
 (* an explicit obligation (invariants ProbesTerminate, NoHang), not an assumption.          *)
 (*                                                                                          *)
 (* CapRule selects the capacity test of pixman_glyph_cache_insert:                          *)
-(*   "glyphs"  n_glyphs >= HASH_SIZE                 (pixman 0.40.1 as shipped)             *)
-(*   "slots"   n_glyphs + n_tombstones >= HASH_SIZE - 1   (repaired: a NULL slot survives)  *)
+(*   "glyphs"  refuse iff n_glyphs >= HASH_SIZE                      (pixman 0.40.1 as shipped) *)
+(*   "slots"   refuse iff n_glyphs + n_tombstones >= HASH_SIZE - 1   (the repair: a NULL slot survives) *)
+(*   "free"    the most general correct rule, the one traces are validated against: refusal  *)
+(*             only when no more than one NULL slot is left, acceptance only if a NULL slot  *)
+(*             remains afterwards ("slots" and any sharper repair are instances of it)       *)
 EXTENDS Integers, Sequences, FiniteSets
 
 CONSTANTS Keys,         \* set of positive integers: the (font key, glyph key) pairs in use
@@ -114,7 +117,15 @@ ThawResult(T) ==
     THEN EvictLoop(IF T.nt > HIGH THEN Cleared ELSE T)
     ELSE T
 
-Full == IF CapRule = "glyphs" THEN ng >= H ELSE ng + nt >= H - 1
+(* the capacity test of pixman_glyph_cache_insert *)
+Occupied == ng + nt
+MayRefuse == IF CapRule = "glyphs" THEN ng >= H ELSE Occupied >= H - 1
+MayAccept(k) ==           \* (no CASE: TLC's -generate mode does not evaluate CASE inside actions)
+    IF CapRule = "glyphs" THEN ng < H
+    ELSE IF CapRule = "slots" THEN Occupied < H - 1
+    ELSE \/ Occupied < H - 1                        \* "free": a NULL slot will remain
+         \/ /\ InsertIdx(slot, k) >= 0
+            /\ slot[InsertIdx(slot, k)] = TOMB      \* a tombstone is reused: no NULL slot taken
 
 Adopt(T) == /\ slot' = T.s /\ ng' = T.ng /\ nt' = T.nt /\ mru' = T.mru /\ val' = T.val
 
@@ -148,19 +159,20 @@ Lookup(k) == /\ LET i == LookupIdx(slot, k) IN
 Insert(k, v) ==
     /\ freeze > 0
     /\ LookupIdx(slot, k) \in {MISS, HANG}
-    /\ IF Full
-       THEN /\ ret' = Void
-            /\ UNCHANGED <<slot, ng, nt, mru, val>>
-       ELSE LET i == InsertIdx(slot, k) IN
-            IF i = HANG
-            THEN /\ ret' = Hung
-                 /\ UNCHANGED <<slot, ng, nt, mru, val>>
-            ELSE /\ slot' = [slot EXCEPT ![i] = k]
-                 /\ nt' = IF slot[i] = TOMB THEN nt - 1 ELSE nt
-                 /\ ng' = ng + 1
-                 /\ mru' = <<k>> \o mru                  \* pixman_list_prepend
-                 /\ val' = [val EXCEPT ![k] = v]
-                 /\ ret' = Found(v)
+    /\ \/ /\ MayRefuse
+          /\ ret' = Void
+          /\ UNCHANGED <<slot, ng, nt, mru, val>>
+       \/ /\ MayAccept(k)
+          /\ LET i == InsertIdx(slot, k) IN
+             IF i = HANG
+             THEN /\ ret' = Hung
+                  /\ UNCHANGED <<slot, ng, nt, mru, val>>
+             ELSE /\ slot' = [slot EXCEPT ![i] = k]
+                  /\ nt' = IF slot[i] = TOMB THEN nt - 1 ELSE nt
+                  /\ ng' = ng + 1
+                  /\ mru' = <<k>> \o mru                  \* pixman_list_prepend
+                  /\ val' = [val EXCEPT ![k] = v]
+                  /\ ret' = Found(v)
     /\ UNCHANGED freeze
 
 Remove(k) ==
